@@ -83,6 +83,12 @@ def run(rep: Report, ctx: Any) -> str:
                        "same path (the next round records it anew); the error of an item that is not attempted again goes to a list the "
                        "rounds do not reset")
 
+    rep.rule("R07.14", "a diagnostic belongs to one item: callers write the label of their item (method and path, reference - R07.3) into the "
+                       "error object they are returned, so an error a function returns (or yields) is an object of its own - built in the "
+                       "call or returned by a callee - never one read out of a store of errors (an entry of a field / module variable that "
+                       "holds errors: subscript, get, setdefault, the variable of a loop over it) nor a module-level error object: a stored "
+                       "error handed out twice is re-labelled by each receiver and only the last item stays named")
+
     # ---- R07.1 -------------------------------------------------------------------------------------------------------
     returns_err: dict[str, list[Any]] = {}
     for f in ix.all_functions:
@@ -374,6 +380,24 @@ def run(rep: Report, ctx: Any) -> str:
                   lhs=[f"{norm(b)[:60]} @ line {getattr(b, 'lineno', 0)}" for b in bad], rhs="with the key present, every path from the question on ends in an error return / raise")
     rep.floor("registering_functions_that_ask", n_present, 1)
 
+    # ---- R07.14 -----------------------------------------------------------------------------------------------------------------------
+    stores = _error_stores(ix)
+    rep.floor("error_stores", len(stores), 2)
+    n_handed = 0
+    for f in ix.all_functions:
+        if not f.module.name.startswith(f"{PKG}.parser"):
+            continue
+        n_out, shared = _stored_errors_handed_out(f, stores)
+        n_handed += n_out
+        for store, leaves in sorted(shared.items()):
+            rep.fail("R07.14", f"{short(f)}::hands out stored error [{store}]",
+                     f"{short(f)} returns an error object it read out of `{store}`, which holds errors beyond the call: every receiver labels "
+                     "the object in place with its own item, so all of them end up sharing the label of the last one and the other items "
+                     "are named by no diagnostic", where(f, leaves[0]), lhs=[f"{norm(x)[:60]} @ line {getattr(x, 'lineno', 0)}" for x in leaves],
+                     rhs="a new error per call (built from the stored one's text if need be), or a copy")
+    rep.ok("R07.14", "parser::errors handed out are fresh", f"{n_handed} result values of functions that read error stores {sorted(stores)[:8]}",
+           "no function returns an entry of a store of errors or a module-level error object", nontrivial=bool(stores))
+
     # ---- R07.11 -----------------------------------------------------------------------------------------------------------------------
     n_copies = 0
     carriers = _diagnostic_carriers(ix)
@@ -545,6 +569,143 @@ def _silent_when_present(ix: Any, f: Any, reg: str, key: ast.AST, asked: list[as
             if falls and f.node not in bad:
                 bad.append(f.node)
     return bad
+
+
+# ---- errors handed out are fresh ------------------------------------------------------------------------------------------------------
+_STORE_HEADS = {"dict", "Dict", "list", "List", "set", "Set", "Mapping", "MutableMapping", "Sequence", "MutableSequence", "defaultdict", "OrderedDict",
+                "deque", "frozenset", "FrozenSet", "tuple", "Tuple"}
+
+
+def _holds_errors(ann: "ast.AST | None") -> bool:
+    """the annotation declares a container with an error class among its element types"""
+    if isinstance(ann, ast.Constant) and isinstance(ann.value, str):
+        try:
+            ann = ast.parse(ann.value, mode="eval").body
+        except SyntaxError:
+            return False
+    if isinstance(ann, ast.BinOp) and isinstance(ann.op, ast.BitOr):
+        return _holds_errors(ann.left) or _holds_errors(ann.right)
+    if not isinstance(ann, ast.Subscript):
+        return False
+    head = norm(ann.value).rsplit(".", 1)[-1]
+    parts = ann.slice.elts if isinstance(ann.slice, ast.Tuple) else [ann.slice]
+    if head in ("Optional", "Union", "Final", "ClassVar", "Annotated"):
+        return any(_holds_errors(p_) for p_ in parts)
+    if head not in _STORE_HEADS:
+        return False
+    return any((dotted_name(n) or "").rsplit(".", 1)[-1] in ERROR_CLASSES for p_ in parts for n in ast.walk(p_) if isinstance(n, (ast.Name, ast.Attribute))) or \
+        any(isinstance(n, ast.Constant) and isinstance(n.value, str) and n.value.rsplit(".", 1)[-1] in ERROR_CLASSES for p_ in parts for n in ast.walk(p_))
+
+
+def _error_stores(ix: Any) -> set[str]:
+    """names of the places that hold errors beyond one call: fields of the package's classes and module variables declared as
+    containers of errors, and attributes into which some function of the package stores an error (`X.a[k] = <error>`,
+    `X.a.append / add / setdefault(.., <error>)`).  Fields read `.name`, module variables `name`."""
+    if hasattr(ix, "_c07_stores"):
+        return ix._c07_stores
+    out: set[str] = set()
+    for c in ix.classes.values():
+        if c.module.name.startswith(PKG):
+            out |= {f".{fld}" for fld, ann in ix.all_fields(c).items() if _holds_errors(ann)}
+    for name, m in ix.modules.items():
+        if name.startswith(PKG):
+            out |= {v for v, ann in m.var_ann.items() if _holds_errors(ann)}
+    for f in ix.all_functions:
+        if not f.module.name.startswith(PKG):
+            continue
+        errs = error_names(f.node)
+
+        def is_err(v: ast.AST, errs: set[str] = errs) -> bool:
+            return constructs_error(v) or (isinstance(v, ast.Name) and v.id in errs)
+
+        for n in _own_walk(f.node):
+            if isinstance(n, ast.Assign) and is_err(n.value):
+                out |= {f".{t.value.attr}" for t in n.targets if isinstance(t, ast.Subscript) and isinstance(t.value, ast.Attribute)}
+            if isinstance(n, ast.Call) and isinstance(n.func, ast.Attribute) and n.func.attr in ("append", "add", "setdefault", "insert") and \
+                    isinstance(n.func.value, ast.Attribute) and n.args and is_err(n.args[-1]):
+                out.add(f".{n.func.value.attr}")
+    ix._c07_stores = out
+    return out
+
+
+def _stored_errors_handed_out(f: Any, stores: set[str]) -> tuple[int, dict[str, list[ast.AST]]]:
+    """(number of result values looked at, store -> the result values of f that are an object read out of that store).  Read out:
+    `S[k]`, `S.get(k)`, `S.setdefault(k, ..)`, the variable of a loop / comprehension over S (its values, its items), with S a field
+    `<obj>.<store>` or a module variable; through the locals (and their aliases) bound to such an expression.  A result value is
+    what `return` / `yield` hands on: the value, an element of a returned tuple, an arm of a conditional / `or` expression - except
+    that a generator which yields the variable of its loop over a store hands on the store, entire (aggregation: R07.5).  A copy
+    (copy / deepcopy / evolve / a constructor handed parts of the stored error) is an object of its own."""
+    mod_errors = {v for v, val in f.module.variables.items() if constructs_error(val)}
+    lc = Locals(f.node)
+
+    def store_of(e: ast.AST) -> "str | None":
+        if isinstance(e, ast.Attribute) and f".{e.attr}" in stores:
+            return f".{e.attr}"
+        if isinstance(e, ast.Name) and e.id in stores and e.id not in lc.defs:
+            return e.id
+        return None
+
+    def read_out(e: "ast.AST | None") -> "str | None":
+        if isinstance(e, ast.Subscript) and not isinstance(e.slice, ast.Slice):
+            return store_of(e.value)
+        if isinstance(e, ast.Call) and isinstance(e.func, ast.Attribute) and e.func.attr in ("get", "setdefault") and e.args:
+            return store_of(e.func.value)
+        if isinstance(e, ast.Call) and call_name(e) == "next" and e.args:
+            return elements_of(e.args[0])
+        return None
+
+    def elements_of(it: "ast.AST | None") -> "str | None":
+        """the store whose entries `it` goes through"""
+        while isinstance(it, ast.Call):
+            if isinstance(it.func, ast.Attribute) and it.func.attr in ("values", "items", "copy") and not it.args:
+                it = it.func.value
+            elif call_name(it) in _ELEMENTWISE and it.args:
+                it = it.args[0]
+            else:
+                break
+        if isinstance(it, (ast.GeneratorExp, ast.ListComp)) and len(it.generators) == 1:
+            own = _targets(it.generators[0].target)
+            return elements_of(it.generators[0].iter) if isinstance(it.elt, ast.Name) and it.elt.id in own else None
+        return store_of(it) if it is not None else None
+
+    def leaves(v: "ast.AST | None") -> list[ast.AST]:
+        if isinstance(v, ast.Tuple):
+            return [x for el in v.elts for x in leaves(el)]
+        if isinstance(v, ast.IfExp):
+            return leaves(v.body) + leaves(v.orelse)
+        if isinstance(v, ast.BoolOp):
+            return [x for el in v.values for x in leaves(el)]
+        if isinstance(v, ast.NamedExpr):
+            return leaves(v.value)
+        return [v] if v is not None else []
+
+    taken: dict[str, str] = {}
+    looped: set[str] = set()
+    for name, ds in lc.defs.items():
+        for kind, st, v in ds:
+            if kind.startswith("for"):
+                src = elements_of(v)
+                if src:
+                    looped |= _same_object(f.node, name)
+            elif kind.startswith("assign"):
+                src = next((r for r in (read_out(x) for x in leaves(v)) if r), None) if "[" not in kind else None
+            else:
+                src = None
+            if src:
+                for alias in _same_object(f.node, name):
+                    taken.setdefault(alias, src)
+    n = 0
+    shared: dict[str, list[ast.AST]] = {}
+    for st in _own_walk(f.node):
+        v = st.value if isinstance(st, (ast.Return, ast.Yield)) else None
+        for x in leaves(v):
+            n += 1
+            src = read_out(x) or (taken.get(x.id) if isinstance(x, ast.Name) and not (isinstance(st, ast.Yield) and x.id in looped) else None)
+            if src is None and isinstance(x, ast.Name) and x.id in mod_errors and x.id not in lc.defs:
+                src = f"module variable {x.id}"
+            if src:
+                shared.setdefault(src, []).append(x)
+    return n, shared
 
 
 # ---- copies of objects that carry diagnostics --------------------------------------------------------------------------------------------
